@@ -114,6 +114,19 @@ fn c09_case(ctx: &Ctx, rep: &mut Report, rng: &mut Rng, version: Version, done: 
         let forbid = rng.chance(1, 8);
         pool.push(random_name(rng, u, forbid));
     }
+    // one case in three: a valid name of exactly 31 units together with too-long names that
+    // go on from it (a lookup that compares only what fits into a stored name would take
+    // them for the same name)
+    if rng.chance(1, 3) {
+        let base = random_name(rng, 31, false);
+        if order::units(&base) == 31 && order::name_is_valid(&base) && !base.ends_with('\0') {
+            rep.count("pool.prefix_family_of_a_31_unit_name");
+            pool.truncate(8);
+            pool.push(base.clone());
+            pool.push(format!("{base}x"));
+            pool.push(format!("{base}Yz{}", rng.below(10)));
+        }
+    }
     // order strategies for insertion
     match rng.below(4) {
         0 => pool.sort_by(|a, b| order::compare(a, b)),
